@@ -10,6 +10,7 @@
 #include "vf.h"
 #include "guard.h"
 #include "igpf.h"
+#include "pf_nest.h"
 #include <climits>
 #include <memory>
 #include <vector>
@@ -1293,11 +1294,24 @@ static void rnd_run(uint64_t idx)
 }
 VF_SUITE(random, rnd_count, rnd_run)
 
+// ---------------------------------------------------------------- suite 4: re-entrancy — the output callback formats through the engine
+// (pf_nest.h) every (outer, inner) pair of a table of d i u o x X p c s f e g calls with widths/precisions; the inner
+// call is injected at every callback invocation of the outer one; both streams and return values must be unchanged.
+static uint64_t reent_count() { return enabled("reentrant") ? pf::reentrancy_count() : 0; }
+static void reent_run(uint64_t idx)
+{
+    if (pf::skip_after_hangs())
+        return;
+    pf::reentrancy_run(idx, false, 0xC06E);
+}
+VF_SUITE(reentrant, reent_count, reent_run)
+
 extern "C" void vf_setup()
 {
     pf::setup();
     if (only_suite() && *only_suite())
         return; // partial debugging run: no completeness demands
+    vf::require("re-entrancy: outer and inner stream and return value unchanged by the overlap");
     for (const char *c : {"callback bytes == ISO C rendering (glibc vsnprintf, same call)", "return value == number of characters emitted",
                           "%p: 0x + hex digits parse back to the pointer, padded to the width",
                           "%s with precision read no further than precision (exact unterminated heap block)",
